@@ -371,3 +371,33 @@ VH_ENTRY vh_delete_insert() {
   ASSERT(in_stream(w, w.sl[NS]), "the inserted slot is in the stream");
   VH_END();
 }
+
+// ---- DELETE, NEXT, PUT_COPY in one rule action (GDL "a b > _ @1"): the copy source may be the slot deleted a moment ago; the copy must be a
+// live slot, and collectGarbage must free the deleted slot only
+VH_ENTRY vh_delete_putcopy() {
+  World w; vh_make_face(w); vh_make_segment(w);
+  ASSUME(inv_stream(w));
+  for (unsigned i = 0; i < NS; ++i) { w.sl[i]->m_parent = w.sl[i]->m_child = w.sl[i]->m_sibling = 0; }      // no attachments in this lemma (PUT_COPY dies on attached slots)
+  unsigned start, len, ctx; window(start, len, ctx);
+  VM_SETUP(w, start, len, ctx, 8);
+  uint8_t *params = vh_bytes(1);
+  const byte *dp = 0;
+  Slot *victim = reg.is;
+  bool c1 = op_body(DELETE)(dp, sp, sb, reg);
+  ASSERT(c1, "DELETE continues");
+  bool c2 = op_body(NEXT)(dp, sp, sb, reg);
+  if (c2 && reg.is) {
+    Slot *cur = reg.is;
+    dp = params;
+    bool c3 = op_body(PUT_COPY)(dp, sp, sb, reg);
+    if (c3) {
+      ASSERT(!cur->isDeleted() && !cur->isCopied(), "the slot written by PUT_COPY is a live slot whatever its source was");
+      ASSERT(inv_stream(w) && w.seg->m_numGlyphs == NS - 1 && !in_stream(w, victim), "after DELETE;NEXT;PUT_COPY: stream well formed, one slot fewer");
+      smap.collectGarbage(reg.is);
+      ASSERT(inv_stream(w) && w.seg->m_numGlyphs == NS - 1, "after collectGarbage: stream well formed");
+      for (unsigned i = 0; i < NS; ++i) if (w.sl[i] != victim) ASSERT(in_stream(w, w.sl[i]), "every slot but the deleted one is still in the stream");
+    }
+  }
+  free(params);
+  VH_END();
+}
